@@ -252,6 +252,7 @@ type Tokenizer struct {
 	keywords   *keywords.Keywords  // Keyword classifier for token type determination
 	dialect    keywords.SQLDialect // SQL dialect for dialect-specific keyword recognition
 	logger     *slog.Logger        // Optional structured logger for verbose tracing
+	configured bool                // keywords/dialect were chosen by the holder (not the defaults of New)
 	Comments   []models.Comment    // Comments captured during tokenization
 }
 
@@ -291,6 +292,7 @@ func NewWithDialect(dialect keywords.SQLDialect) (*Tokenizer, error) {
 	return &Tokenizer{
 		keywords:   kw,
 		dialect:    dialect,
+		configured: true,
 		pos:        NewPosition(1, 0),
 		lineStarts: []int{0},
 	}, nil
@@ -309,6 +311,7 @@ func (t *Tokenizer) SetDialect(dialect keywords.SQLDialect) {
 	}
 	t.dialect = dialect
 	t.keywords = keywords.New(dialect, true)
+	t.configured = true
 }
 
 // NewWithKeywords initializes a Tokenizer with a custom keyword classifier.
@@ -334,6 +337,7 @@ func NewWithKeywords(kw *keywords.Keywords) (*Tokenizer, error) {
 
 	return &Tokenizer{
 		keywords:   kw,
+		configured: true,
 		pos:        NewPosition(1, 0),
 		lineStarts: []int{0},
 	}, nil
